@@ -524,7 +524,7 @@ def tr_tomo(cls):
                "Definition gen_tomo_mse_empi (prob_dist : nat -> nat * vec) (data_num_list : list F) : F :=\n"
                "  fold_left (fun %s jn => let '(%s, %s) := jn in\n"
                "      cadd F %s (let b := gen_tomo_cov_single prob_dist %s %s in mtrace (fst b) (snd b)))\n"
-               "    (combine (seq 0 (length data_num_list)) data_num_list) (c0 F).\n" % (acc, jv, nv_, acc, jarg, narg))
+               "    (combine (seq 0 (List.length data_num_list)) data_num_list) (c0 F).\n" % (acc, jv, nv_, acc, jarg, narg))
     # calc_fisher_matrix_total
     f = find_def(cls, "calc_fisher_matrix_total")
     if argnames(f) != ["self", "var", "weights"]:
@@ -678,6 +678,199 @@ def tr_qmpt_matS(cls):
             % (S_, ov, stv, start, c0, c1, S_, cnt))
 
 
+# ------------------------------------------------------------------ decision structure of the MSE / Cramer-Rao entry points
+def coq_str(s):
+    if not isinstance(s, str) or any(ord(ch) < 32 or ord(ch) > 126 or ch == '"' for ch in s):
+        raise Unsupported("unsupported string constant %r" % (s,))
+    return '"%s"' % s
+
+
+class Sym:
+    """tiny symbolic evaluator for straight-line code with `if <obj>.on_para_eq_constraint:` over the atoms
+       msev (= _calc_mse_linear_analytical_mode_var), V (= calc_covariance_linear_mat_total), S (= _generate_matS()),
+       crv (= _calc_cramer_rao_bound), Minv (= np.linalg.inv(calc_fisher_matrix_total(var, [n / N for n in list_N]))), N"""
+
+    def __init__(self):
+        self.env = {"N": "N"}
+
+    def args_are(self, call, names):
+        return len(call.args) == len(names) and not call.keywords and all(is_name(a, n) for a, n in zip(call.args, names))
+
+    def expr(self, e):
+        if isinstance(e, ast.Name) and e.id in self.env:
+            return self.env[e.id]
+        if isinstance(e, ast.Call) and is_self_attr(e.func):
+            m = e.func.attr
+            if m == "_calc_mse_linear_analytical_mode_var" and self.args_are(e, ["qope", "data_num_list"]):
+                return "msev"
+            if m == "calc_covariance_linear_mat_total" and self.args_are(e, ["qope", "data_num_list"]):
+                return "V"
+            if m == "_generate_matS" and self.args_are(e, []):
+                return "S"
+            if m == "_calc_cramer_rao_bound" and self.args_are(e, ["var", "N", "list_N"]):
+                return "crv"
+            if (m == "calc_fisher_matrix_total" and len(e.args) == 2 and not e.keywords and is_name(e.args[0], "var")
+                    and self.expr(e.args[1]) == "W"):
+                return "Fw"
+            fail(e, "unsupported method call self.%s(...)" % m)
+        if isinstance(e, ast.Call) and isinstance(e.func, ast.Attribute):
+            fn = e.func.attr
+            if fn == "calc_conjugate" and len(e.args) == 2 and not e.keywords:
+                return "(conjugate F nv %s %s)" % (self.expr(e.args[0]), self.expr(e.args[1]))
+            if fn == "trace" and len(e.args) == 1 and not e.keywords:
+                x = self.expr(e.args[0])
+                if x.startswith("(conjugate F nv S "):
+                    return "(mtrace d2 %s)" % x
+                if x == "V":
+                    return "(mtrace nv V)"
+                fail(e, "np.trace of an unsupported matrix expression")
+            if fn == "inv" and len(e.args) == 1 and not e.keywords and self.expr(e.args[0]) == "Fw":
+                return "Minv"
+            fail(e, "unsupported call .%s(...)" % fn)
+        if isinstance(e, ast.ListComp):
+            ok = (len(e.generators) == 1 and not e.generators[0].ifs and is_name(e.generators[0].iter, "list_N") and isinstance(e.generators[0].target, ast.Name)
+                  and isinstance(e.elt, ast.BinOp) and isinstance(e.elt.op, ast.Div) and is_name(e.elt.left, e.generators[0].target.id) and is_name(e.elt.right, "N"))
+            if ok:
+                return "W"
+            fail(e, "expected [n / N for n in list_N]")
+        if isinstance(e, ast.BinOp) and isinstance(e.op, ast.Add):
+            return "(cadd F %s %s)" % (self.expr(e.left), self.expr(e.right))
+        if isinstance(e, ast.BinOp) and isinstance(e.op, ast.Div) and is_name(e.right, "N"):
+            return "(kdiv F %s N)" % self.expr(e.left)
+        fail(e, "unsupported expression")
+
+    def block(self, stmts):
+        """executes stmts; returns the returned term or None"""
+        for k, st in enumerate(stmts):
+            if isinstance(st, ast.Assign) and len(st.targets) == 1 and isinstance(st.targets[0], ast.Name):
+                self.env[st.targets[0].id] = self.expr(st.value)
+            elif isinstance(st, ast.AugAssign) and isinstance(st.target, ast.Name) and isinstance(st.op, ast.Add) and st.target.id in self.env:
+                self.env[st.target.id] = "(cadd F %s %s)" % (self.env[st.target.id], self.expr(st.value))
+            elif isinstance(st, ast.If):
+                t = st.test
+                if not (isinstance(t, ast.Attribute) and t.attr == "on_para_eq_constraint" and isinstance(t.value, ast.Name) and t.value.id in ("qope", "self")):
+                    fail(t, "only `if qope.on_para_eq_constraint:` / `if self.on_para_eq_constraint:` is supported")
+                a = Sym(); a.env = dict(self.env); ra = a.block(st.body)
+                b = Sym(); b.env = dict(self.env); rb = b.block(st.orelse)
+                if ra is not None or rb is not None:
+                    fail(st, "return inside a branch is not supported")
+                for name in sorted(set(a.env) | set(b.env)):
+                    va, vb = a.env.get(name), b.env.get(name)
+                    if va == vb:
+                        self.env[name] = va
+                    elif va is not None and vb is not None:
+                        self.env[name] = "(if on_eq then %s else %s)" % (va, vb)
+                    else:
+                        self.env.pop(name, None)          # defined on one path only: unusable afterwards
+            elif isinstance(st, ast.Return):
+                if k != len(stmts) - 1:
+                    fail(st, "return must be the last statement")
+                return self.expr(st.value)
+            else:
+                fail(st, "unsupported statement")
+        return None
+
+
+def sym_method(cls, name, params):
+    f = find_def(cls, name)
+    if argnames(f) != params:
+        fail(f, "unexpected parameters %s" % argnames(f))
+    r = Sym().block(body_wo_doc(f))
+    if r is None:
+        fail(f, "no return value")
+    return r
+
+
+def has_def(cls, name):
+    return any(isinstance(n, ast.FunctionDef) and n.name == name for n in cls.body)
+
+
+def tr_decisions(base, qst, povmt, qpt, qmpt):
+    out = []
+    # mode dispatch of calc_mse_linear_analytical
+    f = find_def(base, "calc_mse_linear_analytical")
+    if argnames(f) != ["self", "qope", "data_num_list", "mode"]:
+        fail(f, "unexpected parameters")
+    dflt = f.args.defaults
+    if not (len(dflt) == 1 and isinstance(dflt[0], ast.Constant) and isinstance(dflt[0].value, str)):
+        fail(f, "expected a string default for mode")
+    st = body_wo_doc(f)
+    if not (len(st) == 2 and isinstance(st[0], ast.If) and isinstance(st[1], ast.Return) and isinstance(st[1].value, ast.Name)):
+        fail(f, "expected one if / elif / else chain and `return val`")
+    rv = st[1].value.id
+
+    def chain(node):
+        t = node.test
+        if not (isinstance(t, ast.Compare) and len(t.ops) == 1 and isinstance(t.ops[0], ast.Eq) and is_name(t.left, "mode")
+                and isinstance(t.comparators[0], ast.Constant) and isinstance(t.comparators[0].value, str)):
+            fail(t, "expected `mode == <string constant>`")
+
+        def branch(body):
+            if len(body) == 1 and isinstance(body[0], ast.If):
+                return chain(body[0])
+            if body and is_raise_valueerror(body[-1]) and all(isinstance(b, ast.Assign) for b in body[:-1]):
+                return "None"
+            if (len(body) == 1 and isinstance(body[0], ast.Assign) and is_name(body[0].targets[0], rv) and isinstance(body[0].value, ast.Call)
+                    and is_self_attr(body[0].value.func)):
+                c = body[0].value
+                if not (len(c.args) == 2 and not c.keywords and is_name(c.args[0], "qope") and is_name(c.args[1], "data_num_list")):
+                    fail(c, "unexpected arguments")
+                if c.func.attr == "_calc_mse_linear_analytical_mode_qoperation":
+                    return "Some true"
+                if c.func.attr == "_calc_mse_linear_analytical_mode_var":
+                    return "Some false"
+            fail(body[0], "unsupported branch of the mode dispatch")
+        if not node.orelse:
+            fail(node, "missing else branch")
+        return "if String.eqb mode %s then %s else %s" % (coq_str(t.comparators[0].value), branch(node.body), branch(node.orelse))
+    out.append("(* Some true = qoperation mode, Some false = var mode, None = ValueError *)\n"
+               "Definition gen_mse_dispatch (mode : string) : option bool :=\n  %s.\nDefinition gen_mse_default_mode : string := %s.\n"
+               % (chain(st[0]), coq_str(dflt[0].value)))
+    hdr = "(on_eq : bool) (d2 nv : nat) (msev : F) (S V : mat) : F"
+    params = ["self", "qope", "data_num_list"]
+    out.append("Definition gen_mse_var (nv : nat) (V : mat) : F := %s.\n" % sym_method(base, "_calc_mse_linear_analytical_mode_var", params))
+    out.append("Definition gen_base_mse_qop %s := %s.\n" % (hdr, sym_method(base, "_calc_mse_linear_analytical_mode_qoperation", params)))
+    out.append("Definition gen_povmt_mse_qop %s := %s.\n" % (hdr, sym_method(povmt, "_calc_mse_linear_analytical_mode_qoperation", params)))
+    out.append("Definition gen_qmpt_mse_qop %s := %s.\n" % (hdr, sym_method(qmpt, "_calc_mse_linear_analytical_mode_qoperation", params)))
+    # calc_covariance_linear_mat_total: conjugation of the total covariance with the left inverse of matA
+    f = find_def(base, "calc_covariance_linear_mat_total")
+    st = body_wo_doc(f)
+    ok = len(st) == 3 and isinstance(st[2], ast.Return)
+    if ok:
+        a, v = assign1(st[0])
+        ok = (isinstance(v, ast.Call) and isinstance(v.func, ast.Attribute) and v.func.attr == "calc_left_inv" and len(v.args) == 1
+              and isinstance(v.args[0], ast.Call) and is_self_attr(v.args[0].func, "calc_matA") and not v.args[0].args)
+    if ok:
+        val, v = assign1(st[1])
+        ok = (isinstance(v, ast.Call) and isinstance(v.func, ast.Attribute) and v.func.attr == "calc_conjugate" and len(v.args) == 2 and is_name(v.args[0], a)
+              and isinstance(v.args[1], ast.Call) and is_self_attr(v.args[1].func, "calc_covariance_mat_total")
+              and len(v.args[1].args) == 2 and is_name(v.args[1].args[0], "qope") and is_name(v.args[1].args[1], "data_num_list")
+              and is_name(st[2].value, val))
+    if not ok:
+        fail(f, "expected A_inv = calc_left_inv(self.calc_matA()); val = calc_conjugate(A_inv, self.calc_covariance_mat_total(qope, data_num_list)); return val")
+    out.append("Definition gen_cov_linear (nr : nat) (A_inv Sigma : mat) : mat := conjugate F nr A_inv Sigma.\n")
+    # Cramer-Rao: public method of the base class, override of StandardPovmt
+    f = find_def(base, "calc_cramer_rao_bound")
+    st = body_wo_doc(f)
+    if not (len(st) == 1 and isinstance(st[0], ast.Return) and Sym().expr(st[0].value) == "crv"):
+        fail(f, "expected `return self._calc_cramer_rao_bound(var, N, list_N)`")
+    out.append("Definition gen_povmt_cr (on_eq : bool) (d2 nv : nat) (N crv : F) (S Minv : mat) : F := %s.\n"
+               % sym_method(povmt, "calc_cramer_rao_bound", ["self", "var", "N", "list_N"]))
+    # which classes override what
+    ov = lambda c, n: "true" if has_def(c, n) else "false"
+    q = "_calc_mse_linear_analytical_mode_qoperation"
+    others = ("calc_mse_linear_analytical", "_calc_mse_linear_analytical_mode_var", "calc_covariance_linear_mat_total",
+              "calc_covariance_mat_total", "calc_covariance_mat_single", "calc_mse_empi_dists_analytical",
+              "calc_fisher_matrix", "calc_fisher_matrix_total", "_calc_cramer_rao_bound", "calc_prob_dist", "calc_prob_dists")
+    out.append("(* overrides: [QST; POVMT; QPT; QMPT] *)\nDefinition gen_overrides_mse_qop : list bool := [%s; %s; %s; %s].\n"
+               "Definition gen_overrides_cr : list bool := [%s; %s; %s; %s].\n"
+               "Definition gen_overrides_other : bool := %s.\n"
+               % (ov(qst, q), ov(povmt, q), ov(qpt, q), ov(qmpt, q),
+                  ov(qst, "calc_cramer_rao_bound"), ov(povmt, "calc_cramer_rao_bound"), ov(qpt, "calc_cramer_rao_bound"), ov(qmpt, "calc_cramer_rao_bound"),
+                  "true" if any(has_def(c, n) for c in (qst, povmt, qpt, qmpt) for n in others) else "false"))
+    return "\n".join(out)
+
+
 def main(repo, out):
     def parse(rel):
         return ast.parse(open(os.path.join(repo, rel), encoding="utf-8").read())
@@ -686,10 +879,10 @@ def main(repo, out):
     tp = parse("quara/protocol/qtomography/standard/standard_povmt.py")
     tm = parse("quara/protocol/qtomography/standard/standard_qmpt.py")
     parts = ["(* GENERATED by gen/c19_py2coq.py from the current quara source - do not edit *)",
-             "From Coq Require Import List Bool Arith ZArith.",
+             "From Coq Require Import List Bool Arith ZArith String.",
              "From QV.Core Require Import OF Sums Mat.",
              "From QV.Model Require Import Multinomial C19_Expect C19_ErrFormulas C19_PySem.",
-             "Import ListNotations.", "Local Open Scope nat_scope.", "",
+             "Import ListNotations.", "Local Open Scope string_scope.", "Local Open Scope nat_scope.", "",
              "Section Gen.", "Context (F : OF).", "Notation vec := (@vec F). Notation mat := (@mat F).", ""]
     parts.append(tr_replace(find_def(mu, "replace_prob_dist")))
     parts.append(tr_direct_sum(find_def(mu, "calc_direct_sum")))
@@ -698,6 +891,9 @@ def main(repo, out):
     parts.append(tr_tomo(find_class(tq, "StandardQTomography")))
     parts.append(tr_povmt_matS(find_class(tp, "StandardPovmt")))
     parts.append(tr_qmpt_matS(find_class(tm, "StandardQmpt")))
+    parts.append(tr_decisions(find_class(tq, "StandardQTomography"), find_class(parse("quara/protocol/qtomography/standard/standard_qst.py"), "StandardQst"),
+                              find_class(tp, "StandardPovmt"), find_class(parse("quara/protocol/qtomography/standard/standard_qpt.py"), "StandardQpt"),
+                              find_class(tm, "StandardQmpt")))
     parts.append("End Gen.\n")
     open(out, "w").write("\n".join(parts))
 
